@@ -60,9 +60,9 @@ var c06jsons = []string{
 	`{"b":"s","a":null}`,
 	`{"zq":{"y":1,"x":[1,{"k":2}]},"a":2}`,
 	`{"a":1,"a":2,"ab":3}`,
-	`{"a":1,"b":`,      // truncated: "a" is applied before the error
-	`{"é":true} x`,     // trailing content: members applied, then rejected
-	`[1]`,              // not an object: nothing applied
+	`{"a":1,"b":`,  // truncated: "a" is applied before the error
+	`{"é":true} x`, // trailing content: members applied, then rejected
+	`[1]`,          // not an object: nothing applied
 	` { "" : 0 , "a.b" : [ ] } `,
 }
 
